@@ -3,6 +3,7 @@ package pcv
 import (
 	"go/token"
 	"go/types"
+	"strings"
 
 	"golang.org/x/tools/go/ssa"
 )
@@ -192,15 +193,22 @@ func (s *Sel) checkReleaseSites(c *Ctx) {
 			} else {
 				// must be a definitely non-nil error: result of a call / MakeInterface
 				nonNil := false
+				wraps := false
 				switch x := cc.Args[0].(type) {
 				case *ssa.Call:
 					if o := CalleeObj(&x.Call); o != nil && o.Pkg() != nil && (o.Pkg().Path() == "fmt" && o.Name() == "Errorf" || o.Pkg().Path() == "errors" && o.Name() == "New") {
 						nonNil = true
+						// the waiter recognises success by errors.Is(cause, context.Canceled):
+						// a failure cause must not wrap another error (it could be Canceled)
+						if format, okf := ConstString(x.Call.Args[0]); okf && strings.Contains(format, "%w") {
+							wraps = true
+						}
 					}
 				case *ssa.MakeInterface:
 					nonNil = true
 				}
 				c.Check(nonNil, rule, "readyLogCancelFn(err):"+p.FuncKey(f), p.InstrPos(in), "non-success release passes a non-nil cause", "readyLogCancelFn is called with a cause that may be nil outside the ready-log-line match (would count as success)")
+				c.Check(!wraps, rule, "readyLogCancelFn(err):no-wrap:"+p.FuncKey(f), p.InstrPos(in), "the failure cause wraps no other error", "the failure cause passed to readyLogCancelFn wraps another error (%w): the log-ready waiter tests errors.Is(cause, context.Canceled), so a wrapped Canceled makes an aborted dependency look ready and its dependents are launched")
 			}
 		}
 	}
